@@ -10,6 +10,7 @@ import (
 	"errors"
 	"fmt"
 	"os"
+	"strings"
 	"time"
 
 	"seata.apache.org/seata-go/pkg/protocol/branch"
@@ -23,6 +24,7 @@ import (
 )
 
 type step struct {
+	Key   int          `json:"key,omitempty"`
 	Op    string       `json:"op"`
 	Stmts []atlab.Stmt `json:"stmts,omitempty"`
 	K     int          `json:"k,omitempty"`
@@ -34,6 +36,9 @@ type step struct {
 type scenario struct {
 	Init  []atlab.Row `json:"init"`
 	Steps []step      `json:"steps"`
+	// C18: the concrete spelling of the (single) statement
+	Shape string `json:"shape,omitempty"`
+	Place string `json:"place,omitempty"`
 }
 
 func env(name, def string) string {
@@ -41,6 +46,21 @@ func env(name, def string) string {
 		return v
 	}
 	return def
+}
+
+var images bool
+
+func errClass(err error) string {
+	m := err.Error()
+	for _, p := range []string{"Named Parameters", "syntax", "Unknown column", "PK columnName", "pk update", "not support", "invalid conn", "expected", "Duplicate"} {
+		if strings.Contains(m, p) {
+			return strings.ReplaceAll(p, " ", "-")
+		}
+	}
+	if len(m) > 40 {
+		m = m[:40]
+	}
+	return strings.ReplaceAll(m, " ", "-")
 }
 
 func stmtSig(ss []atlab.Stmt) string {
@@ -56,6 +76,7 @@ func stmtSig(ss []atlab.Stmt) string {
 
 func main() {
 	o := common.Parse()
+	images = o.Prop == "C18"
 	cfg := tc.DefaultConfig()
 	cfg.OnlyCareUpdate = env("ONLYCARE", "true") == "true"
 	cfg.DataValidation = env("VALIDATE", "true") == "true"
@@ -102,8 +123,14 @@ func main() {
 		if schema.Auto && !atlab.AutoCompatible(sc.Init, branches) {
 			schema = fam[0]
 		}
+		if sc.Shape != "" && schemaOnly == "" {
+			schema = []*atlab.Schema{fam[0], fam[1], fam[5]}[(i+int(o.Seed))%3]
+		}
 		style := atlab.RandStyle(r)
 		cls := fmt.Sprintf("schema=%s,lit=%v,explicit=%v", schema.Name, style.Literal, style.Explicit)
+		if sc.Shape != "" {
+			cls = fmt.Sprintf("schema=%s,shape=%s,place=%s,explicit=%v", schema.Name, sc.Shape, sc.Place, style.Explicit)
+		}
 		t := w.Begin(map[string]interface{}{"i": i, "sc": sc, "schema": schema.Name, "style": style}, cls)
 		if !run(lab, t, sc, schema, style) {
 			aborted++
@@ -139,7 +166,18 @@ func run(lab *atlab.Lab, t *trace.T, sc scenario, schema *atlab.Schema, style at
 			case "p1":
 				nb++
 				before := len(lab.Registered(xid))
-				err := lab.RunBranch(ctx, schema, st.Stmts, style)
+				var err error
+				if sc.Shape != "" && len(st.Stmts) == 1 {
+					q, args, ok := schema.ShapeSQL(st.Stmts[0], sc.Shape, sc.Place)
+					if !ok {
+						t.Add("Abort", "why", "shape not applicable", "sig", "shape-na")
+						aborted = true
+						return fmt.Errorf("n/a")
+					}
+					err = lab.ExecSQL(ctx, q, args, style.Explicit)
+				} else {
+					err = lab.RunBranch(ctx, schema, st.Stmts, style)
+				}
 				regs := lab.Registered(xid)
 				reg := len(regs) > before
 				undo := "none"
@@ -149,6 +187,15 @@ func run(lab *atlab.Lab, t *trace.T, sc scenario, schema *atlab.Schema, style at
 				}
 				db, extra := lab.Project(schema)
 				sig := fmt.Sprintf("%s:%s:lit=%v:explicit=%v", sigBase, stmtSig(st.Stmts), style.Literal, style.Explicit)
+				if sc.Shape != "" {
+					sig = fmt.Sprintf("%s:%s:shape=%s:place=%s", sigBase, stmtSig(st.Stmts), sc.Shape, sc.Place)
+				}
+				if err != nil && images {
+					// C18: a refused statement must have recorded nothing; the refusal itself is reported
+					t.Add("Refused", "b", nb, "stmts", st.Stmts, "why", errClass(err), "db", db, "undorows", lab.UndoRows(), "sig", sig+":"+errClass(err))
+					aborted = true
+					return err
+				}
 				if err != nil {
 					// phase one failed without any injected fault: out of this module's scope
 					t.Add("Abort", "why", "p1 failed: "+err.Error(), "sig", sig)
@@ -157,6 +204,35 @@ func run(lab *atlab.Lab, t *trace.T, sc scenario, schema *atlab.Schema, style at
 				}
 				t.Add("P1", "b", nb, "stmts", st.Stmts, "ok", err == nil, "undo", undo, "reg", reg, "db", db,
 					"extra", extra, "idle", lab.Idle(), "sig", sig)
+				if images && reg {
+					imgs, ok, why := lab.UndoImages(schema, xid, bids[nb])
+					if imgs == nil {
+						imgs = []atlab.Image{}
+					}
+					if undo == "none" {
+						ok, why = true, "" // nothing recorded: the empty image list
+					}
+					t.Add("Images", "b", nb, "imgs", imgs, "decoded", ok, "why", why, "sig", sig)
+				}
+			case "p1pk":
+				// C18: an UPDATE that changes the primary key must be refused and record nothing
+				nb++
+				q := fmt.Sprintf("UPDATE %s SET id = ? WHERE id = ?", schema.Name)
+				args := []interface{}{int64(77), schema.KeyVals(st.Key)[0]}
+				if schema.KeyKind != "int" {
+					t.Add("Abort", "why", "pk update only on int keys", "sig", "p1pk-na")
+					aborted = true
+					return fmt.Errorf("n/a")
+				}
+				err := lab.ExecSQL(ctx, q, args, style.Explicit)
+				db, _ := lab.Project(schema)
+				if err != nil {
+					t.Add("RefusedPk", "b", nb, "key", st.Key, "db", db, "undorows", lab.UndoRows(), "sig", sigBase+":pkupdate")
+				} else {
+					t.Add("PkAccepted", "b", nb, "key", st.Key, "db", db, "undorows", lab.UndoRows(), "sig", sigBase+":pkupdate")
+				}
+				aborted = true // nothing more to do in this scenario
+				return fmt.Errorf("done")
 			case "p1late":
 				nb++
 				late[nb] = true
@@ -211,6 +287,11 @@ func run(lab *atlab.Lab, t *trace.T, sc scenario, schema *atlab.Schema, style at
 	if aborted {
 		t.Add("End", "sig", "end")
 		return false
+	}
+	if images {
+		// C18 is about what phase one recorded; the rollback of these branches is C01's business
+		t.Add("End", "sig", "end")
+		return true
 	}
 	// the coordinator rolls the registered branches back in reverse order of registration; the
 	// scenario says, per branch, which deliveries it makes (fault position, repetitions)
